@@ -57,6 +57,11 @@ type scenario struct {
 	// send fails). In batch mode the write is only queued, so the failure surfaces in Close.
 	LastWrite string `json:"lastWrite,omitempty"`
 	DoubleClose bool `json:"doubleClose,omitempty"` // the racy closer of a connection is doubled: two workers call Close at the same time
+	// TickClose: batch mode: everything is closed right at a tick of the flush ticker (period
+	// 30 min), TickDeltaNs before (+) or after (-) it, with a write still queued
+	TickClose   bool  `json:"tickClose,omitempty"`
+	TickDeltaNs int64 `json:"tickDeltaNs,omitempty"`
+	SamePort  bool   `json:"samePort,omitempty"` // the remotes share one port and differ in a high octet of their address (127.<i>.7.9:7001) instead of sharing the address
 	ReadGapNs int64  `json:"readGapNs,omitempty"` // readers pause this long before every Read (lagging readers keep data in the connection's ring)
 }
 
@@ -117,6 +122,12 @@ func gen(r *harn.Rng, tier string) interface{} {
 		sc.ReCloseAtNs = append(sc.ReCloseAtNs, t)
 	}
 	sc.DoubleClose = r.Bool(0.3)
+	sc.SamePort = r.Bool(0.3)
+	if sc.Batch && r.Bool(0.4) {
+		sc.TickClose = true
+		sc.TickDeltaNs = int64(r.Pick(0, 0, 1, 100, 1000, -1, -100))
+		sc.LastWrite = ""
+	}
 	if r.Bool(0.15) {
 		sc.LastWrite = []string{"oversize", "fail"}[r.Intn(2)]
 	}
@@ -173,7 +184,7 @@ func run(env *simrt.Env, sci interface{}) {
 	lkey := laddr.String()
 	var peers []*simnet.UDPConn
 	for i := range sc.Remotes {
-		p, err := simnet.ListenUDP("udp", &net.UDPAddr{IP: net.IPv4(127, 0, 0, 1), Port: 7001 + i})
+		p, err := simnet.ListenUDP("udp", peerAddr(sc, i))
 		if err != nil {
 			env.Infra("peer: %v", err)
 			return
@@ -386,6 +397,20 @@ func run(env *simrt.Env, sci interface{}) {
 		}
 	}
 
+	if sc.TickClose {
+		const period = 30 * time.Minute
+		d := period - env.Elapsed()%period - time.Duration(sc.TickDeltaNs)
+		if d > 0 {
+			env.Sleep(d)
+		}
+		for _, c := range conns {
+			if c.closeInv == 0 {
+				_, _ = c.conn.Write([]byte{0xAC, 1, 2, 3, 4, 5, 6, 7}) // stays queued: the interval is an hour
+				break
+			}
+		}
+		env.Fault("close-at-flush-tick")
+	}
 	if sc.LastWrite != "" {
 		for _, c := range conns {
 			if c.closeInv != 0 {
@@ -498,8 +523,8 @@ func run(env *simrt.Env, sci interface{}) {
 	for _, c := range conns {
 		byRemote[c.remote] = append(byRemote[c.remote], c)
 		for _, p := range c.reads {
-			if len(p) >= 2 && fmt.Sprintf("127.0.0.1:%d", 7001+int(p[1])) != c.remote {
-				env.Fail("C11/wrong-connection", "connection #%d (remote %s) returned a datagram sent by remote 127.0.0.1:%d", c.idx, c.remote, 7001+int(p[1]))
+			if len(p) >= 2 && peerAddr(sc, int(p[1])).String() != c.remote {
+				env.Fail("C11/wrong-connection", "connection #%d (remote %s) returned a datagram sent by remote %s", c.idx, c.remote, peerAddr(sc, int(p[1])))
 				return
 			}
 		}
@@ -722,7 +747,18 @@ func connsDesc(cs []*connRec) string {
 
 func (c *connRec) remoteIndex() int {
 	a := c.conn.RemoteAddr().(*net.UDPAddr)
+	if a.Port == 7001 && a.IP.To4() != nil && a.IP.To4()[2] == 7 {
+		return int(a.IP.To4()[1])
+	}
 	return a.Port - 7001
+}
+
+// peerAddr is the address of remote #i.
+func peerAddr(sc *scenario, i int) *net.UDPAddr {
+	if sc.SamePort {
+		return &net.UDPAddr{IP: net.IPv4(127, byte(i), 7, 9), Port: 7001}
+	}
+	return &net.UDPAddr{IP: net.IPv4(127, 0, 0, 1), Port: 7001 + i}
 }
 
 func pollFor(p *simnet.UDPConn, want []byte) bool {
